@@ -41,8 +41,27 @@ def parseMap (t : String) : Option (Key × Str) :=
     | _ => none
   | _ => none
 
+/-- outer line token: `B` blank for the section splitter, else `<o><e><c>/<hexname>/<inner line token>` -/
+def parseOLine (t : String) : Option OLine :=
+  match t.splitOn "/" with
+  | [flags, name, inner] =>
+    match flags.toList with
+    | [b, o, e, c] => do
+      let name ← parseHex name
+      let inner ← parseLine inner
+      pure { blank := b == '1', hasOpen := o == '1', hasEq := e == '1', hasClose := c == '1', name := str name, inner := inner }
+    | _ => none
+  | _ => none
+
 def handle (op : String) (args : List String) : Option String :=
   match op, args with
+  | "conf.realms", g :: lines => do
+    let lines ← lines.mapM parseOLine
+    match parseRealms (g == "1") lines with
+    | .ok (rs, unsup) =>
+      pure ("ok " ++ (if unsup then "unsupported " else "") ++ " | ".intercalate (rs.map (fun (n, r) => unstr n ++ " " ++ showRealm r)))
+    | .err e => pure ("err " ++ e)
+    | .crash w => pure ("panic " ++ w)
   | "conf.realm", lines => do
     let lines ← lines.mapM parseLine
     match parseRealm lines with
